@@ -238,7 +238,7 @@ Qed.
 (* the selected key is an element of (host list ++ [""]) none of whose predecessors has a
    matching route; every candidate's key is that element or one of its successors *)
 Lemma lookup_position t host tls uri m globoff k p id :
-  table_ok t -> F_C03_gobwas_overlap globoff tls m t host uri = false ->
+  table_ok t ->
   lookup t host tls uri m globoff = Some (k, p, id) ->
   exists l1 l2,
     host_list t host tls globoff ++ [[]] = l1 ++ k :: l2 /\
@@ -248,7 +248,7 @@ Lemma lookup_position t host tls uri m globoff k p id :
       In (p', id') (assoc t k') /\ path_match m uri p' = true /\
       (k' = [] \/ spec_host_match globoff tls k' host = true).
 Proof.
-  intros Hok F6 Hl. pose proof (table_ok_wf t Hok) as Hwf.
+  intros Hok Hl. pose proof (table_ok_wf t Hok) as Hwf.
   destruct Hok as (Hplain & Hnd & Hsorted).
   unfold lookup in Hl. fold (host_list t host tls globoff) in Hl.
   apply first_some_split in Hl as (l1 & h & l2 & EL & H1 & Hl1).
@@ -266,7 +266,7 @@ Proof.
   pose proof (keys_of_all_routes _ _ _ _ Hall') as Hkey'.
   pose proof (wf_keys_in t k' Hwf Hkey') as Hlow'.
   unfold is_candidate in Hcand'. apply andb_true_iff in Hcand' as [Hhost' Hpath'].
-  rewrite (no_dev_path _ _ _ _ _ _ _ _ _ F6 Hall') in Hpath'.
+  apply spec_path_implies in Hpath'.
   pose proof (lookup1_complete t k' uri m p' id' Hlow' Hp' Hpath') as Hans.
   assert (Hk'nil : k' = [] \/ spec_host_match globoff tls k' host = true).
   { apply orb_true_iff in Hhost' as [Hnil | Hh']; [left | now right].
@@ -276,7 +276,7 @@ Proof.
     unfold host_list. unfold spec_host_match in Hh'. destruct globoff.
     - apply (matching_host_noglob_in t host tls k' Hwf). split; [exact Hkey' | exact Hh'].
     - apply (matching_hosts_in t host tls k' Hwf). split; [exact Hkey'|].
-      now rewrite (no_dev_host _ _ _ _ _ _ _ F6 eq_refl Hkey'). }
+      now apply glob_implies_gobwas. }
   rewrite EL in HinL. apply in_app_or in HinL as [Hbad | HinL].
   { exfalso. apply Hans. now apply Hl1. }
   repeat split; try assumption. destruct HinL as [<- | HinL]; [now left | now right].
@@ -299,14 +299,13 @@ Qed.
 (** * An exact host beats every pattern (since /repo bc98e3c: no side condition) *)
 Theorem exact_beats_wildcard t host tls uri m k p id :
   table_ok t ->
-  F_C03_gobwas_overlap false tls m t host uri = false ->
   lookup t host tls uri m false = Some (k, p, id) ->
   forall k' p' id', In (k', p', id') (candidates t false tls m host uri) ->
     k' <> [] -> has_meta k' = false -> k <> [] /\ has_meta k = false.
 Proof.
-  intros Hok F6 Hl k' p' id' Hc Hk' Hm'.
+  intros Hok Hl k' p' id' Hc Hk' Hm'.
   pose proof (table_ok_wf t Hok) as Hwf.
-  destruct (lookup_position _ _ _ _ _ _ _ _ _ Hok F6 Hl) as (l1 & l2 & EL & _ & Hpos).
+  destruct (lookup_position _ _ _ _ _ _ _ _ _ Hok Hl) as (l1 & l2 & EL & _ & Hpos).
   destruct (Hpos _ _ _ Hc) as (Hwhere & Hkey' & _).
   destruct Hwhere as [<- | Hafter]; [now split|].
   pose proof Hok as Hok'. destruct Hok' as (Hplain & _ & _). rewrite Forall_forall in Hplain.
@@ -335,9 +334,6 @@ Qed.
 
 (* ------------------------------------------------------------------ *)
 (** * Among patterns the longer literal host suffix comes first *)
-Definition host_bytes_ok (host : str) (tls : bool) : Prop :=
-  forall c, In c (normalize_host host tls) -> 42 < c.
-
 Lemma nth_error_skipn {A} n : forall (l : list A) x,
   nth_error l n = Some x -> exists r, skipn n l = x :: r.
 Proof.
@@ -347,14 +343,14 @@ Proof.
 Qed.
 
 Lemma wild_order tls t host h k' :
-  table_ok t -> F_C03_metachar_order false tls t host = false -> host_bytes_ok host tls ->
+  table_ok t -> F_C03_metachar_order false tls t host = false ->
   In h (keys t) -> In k' (keys t) ->
   glob_match h (normalize_host host tls) = true ->
   glob_match k' (normalize_host host tls) = true ->
   has_meta h = true -> has_meta k' = true -> rev_ge h k' ->
   host_beats (host_class false tls k') (host_class false tls h) = false.
 Proof.
-  intros Hok F3 Hbytes Hh Hk' Mh Mk' Mhm Mk'm Hge.
+  intros Hok F3 Hh Hk' Mh Mk' Mhm Mk'm Hge.
   destruct Hok as (Hplain & _ & _). rewrite Forall_forall in Hplain.
   pose proof (Hplain h Hh) as Ph. pose proof (Hplain k' Hk') as Pk'.
   unfold host_class. rewrite (normalize_plain h tls Ph), (normalize_plain k' tls Pk').
@@ -371,24 +367,23 @@ Proof.
   assert (Et : take_lits (rev k') = rev (lit_tail k')).
   { unfold lit_tail. now rewrite rev_involutive. }
   rewrite Et in Ek.
+  (* outside region 3 the pair (h, k') is not a low pair *)
+  assert (L : low_pair tls nh h k' = false).
+  { unfold F_C03_metachar_order in F3. cbn [negb andb] in F3.
+    pose proof (existsb_false _ _ _ F3 Hh) as E3. cbn beta in E3. fold nh in E3.
+    exact (existsb_false _ _ _ E3 Hk'). }
+  unfold low_pair in L.
+  rewrite (normalize_plain h tls (Hplain h Hh)), (normalize_plain k' tls (Hplain k' Hk')) in L.
+  rewrite (host_part_plain h Ch), (host_part_plain k' Ck'), Mhm, Mk'm, Mh, Mk' in L.
+  apply Nat.ltb_lt in E. rewrite E in L. cbn [andb] in L. apply Nat.ltb_lt in E.
   assert (Hmd : forall m d, is_meta m = true ->
             nth_error (rev h) (length (lit_tail h)) = Some m ->
             nth_error (rev nh) (length (lit_tail h)) = Some d -> m < d).
-  { intros m d Hm Hnm Hnd.
-    assert (Hd : In d nh) by (apply in_rev; eapply nth_error_In; exact Hnd).
-    unfold is_meta in Hm. apply orb_true_iff in Hm as [Hm | Hm]; apply N.eqb_eq in Hm; subst m.
-    - now apply Hbytes.
-    - unfold F_C03_metachar_order in F3. cbn [negb andb] in F3.
-      pose proof (existsb_false _ _ _ F3 Hh) as E3. cbn beta zeta in E3.
-      rewrite (normalize_plain h tls (Hplain h Hh)), (host_part_plain h Ch) in E3.
-      fold nh in E3.
-      assert (Q : qmark_tail h = true).
-      { unfold qmark_tail. destruct (nth_error_skipn _ _ _ Hnm) as [r ->]. apply N.eqb_refl. }
-      rewrite Q in E3. cbn [andb] in E3. apply orb_false_iff in E3 as [E3 _].
-      unfold low_before in E3.
-      assert (Hs : has_suffix nh (lit_tail h) = true).
-      { apply has_suffix_spec. destruct (tail_suffix h nh Mh) as [x Hx]. now exists x. }
-      rewrite Hs, Hnd in E3. cbn [andb] in E3. apply N.leb_gt in E3. exact E3. }
+  { intros m d _ Hnm Hnd. unfold meta_before_tail in L. rewrite Hnm in L.
+    apply orb_false_iff in L as [L _]. unfold byte_before in L.
+    assert (Hs : has_suffix nh (lit_tail h) = true).
+    { apply has_suffix_spec. destruct (tail_suffix h nh Mh) as [x Hx]. now exists x. }
+    rewrite Hs, Hnd in L. now apply N.leb_gt in L. }
   pose proof (longer_tail_first h nh (lit_tail k') rest Mhm Mh (tail_suffix k' nh Mk') E Hmd) as Hlt.
   rewrite <- Ek in Hlt. unfold rev_ge in Hge. congruence.
 Qed.
@@ -396,15 +391,16 @@ Qed.
 (* ------------------------------------------------------------------ *)
 (** * lookup_unbeaten_on_domain *)
 Theorem lookup_unbeaten_on_domain t host tls uri m globoff c :
-  table_ok t -> region t globoff tls m host uri = None -> host_bytes_ok host tls ->
+  table_ok t -> region t globoff tls m host uri = None ->
   lookup t host tls uri m globoff = Some c ->
   forall c', In c' (candidates t globoff tls m host uri) -> beats globoff tls m c' c = false.
 Proof.
-  intros Hok Hreg Hbytes Hl c' Hc'.
+  intros Hok Hreg Hl c' Hc'.
   pose proof (table_ok_wf t Hok) as Hwf.
   destruct (region_none _ _ _ _ _ _ Hreg) as (F6 & F3).
   destruct c' as [[k' p'] id']. destruct c as [[h p] id].
-  destruct (lookup_position _ _ _ _ _ _ _ _ _ Hok F6 Hl) as (l1 & l2 & EL & H1 & Hpos).
+  pose proof Hl as Hsel.
+  destruct (lookup_position _ _ _ _ _ _ _ _ _ Hok Hl) as (l1 & l2 & EL & H1 & Hpos).
   destruct (Hpos _ _ _ Hc') as (Hwhere & Hkey' & Hp' & Hpath' & Hhost').
   unfold beats. apply orb_false_iff. split.
   - (* host order *)
@@ -446,10 +442,11 @@ Proof.
     rewrite (is_exact_plain _ (Hplain _ Hkey')) in Hk'W by discriminate.
     apply negb_false_iff in Hk'W.
     unfold host_list in Hh. apply (matching_hosts_in t host tls _ Hwf) in Hh as [_ Hhm].
-    rewrite (no_dev_host _ _ _ _ _ _ _ F6 eq_refl Hhk) in Hhm.
+    destruct (no_dev_selected _ _ _ _ _ _ _ _ _ F6 Hsel) as [Dh _].
+    rewrite (Dh eq_refl) in Hhm by discriminate.
     rewrite (normalize_plain _ tls (Hplain _ Hhk)) in Hhm.
     unfold spec_host_match in Hhost'. rewrite (normalize_plain _ tls (Hplain _ Hkey')) in Hhost'.
-    exact (wild_order tls t host _ _ Hok F3 Hbytes Hhk Hkey' Hhm Hhost' Mh Hk'W Hge).
+    exact (wild_order tls t host _ _ Hok F3 Hhk Hkey' Hhm Hhost' Mh Hk'W Hge).
   - (* same key: longest path *)
     destruct (beq k' h) eqn:Ekh; [|reflexivity]. apply beq_eq in Ekh. subst k'.
     destruct (is_prefix_matcher m) eqn:Epm; [|reflexivity]. cbn [andb].
@@ -463,10 +460,10 @@ Lemma cand_eqb_refl c : cand_eqb c c = true.
 Proof. destruct c as [[k p] i]. unfold cand_eqb. now rewrite !beq_refl, N.eqb_refl. Qed.
 
 Theorem lookup_meets_spec_on_domain t host tls uri m globoff :
-  table_ok t -> region t globoff tls m host uri = None -> host_bytes_ok host tls ->
+  table_ok t -> region t globoff tls m host uri = None ->
   spec_b t globoff tls m host uri (lookup t host tls uri m globoff) = true.
 Proof.
-  intros Hok Hreg Hbytes.
+  intros Hok Hreg.
   pose proof (table_ok_wf t Hok) as Hwf.
   destruct (region_none _ _ _ _ _ _ Hreg) as (F6 & _).
   unfold spec_b. destruct (lookup t host tls uri m globoff) as [c|] eqn:El.
@@ -475,24 +472,24 @@ Proof.
       destruct (lookup_sound _ _ _ _ _ _ _ Hwf F6 El) as [Hin Hc].
       unfold candidates. apply filter_In. now split.
     + apply forallb_forall. intros c' Hc'. apply negb_true_iff.
-      now apply (lookup_unbeaten_on_domain t host tls uri m globoff c Hok Hreg Hbytes El).
+      now apply (lookup_unbeaten_on_domain t host tls uri m globoff c Hok Hreg El).
   - destruct (candidates t globoff tls m host uri) as [|c0 cs] eqn:Ec; [reflexivity|].
     exfalso. assert (Hc0 : In c0 (candidates t globoff tls m host uri)) by (rewrite Ec; now left).
     unfold candidates in Hc0. apply filter_In in Hc0 as [Hin Hc].
     destruct Hok as (_ & Hnd & _).
-    now apply (lookup_complete t host tls uri m globoff c0 Hwf Hnd F6 Hin Hc).
+    now apply (lookup_complete t host tls uri m globoff c0 Hwf Hnd Hin Hc).
 Qed.
 
 (* ---- the named clauses, as corollaries ---- *)
 
 (* host-less routes are used only when no host-specific route matches *)
 Corollary hostless_last t host tls uri m globoff p id :
-  table_ok t -> region t globoff tls m host uri = None -> host_bytes_ok host tls ->
+  table_ok t -> region t globoff tls m host uri = None ->
   lookup t host tls uri m globoff = Some ([], p, id) ->
   forall k' p' id', In (k', p', id') (candidates t globoff tls m host uri) -> k' = [].
 Proof.
-  intros Hok Hreg Hb Hl k' p' id' Hc.
-  pose proof (lookup_unbeaten_on_domain _ _ _ _ _ _ _ Hok Hreg Hb Hl _ Hc) as H.
+  intros Hok Hreg Hl k' p' id' Hc.
+  pose proof (lookup_unbeaten_on_domain _ _ _ _ _ _ _ Hok Hreg Hl _ Hc) as H.
   unfold beats in H. apply orb_false_iff in H as [H _].
   destruct k' as [|c k']; [reflexivity|]. exfalso.
   unfold host_class in H. cbn [is_nil] in H.
@@ -501,14 +498,14 @@ Qed.
 
 (* a longer literal host suffix beats a shorter one *)
 Corollary longer_suffix_first t host tls uri m k p id :
-  table_ok t -> region t false tls m host uri = None -> host_bytes_ok host tls ->
+  table_ok t -> region t false tls m host uri = None ->
   lookup t host tls uri m false = Some (k, p, id) ->
   forall k' p' id', In (k', p', id') (candidates t false tls m host uri) ->
     has_meta k' = true -> has_meta k = true ->
     (length (lit_tail k') <= length (lit_tail k))%nat.
 Proof.
-  intros Hok Hreg Hb Hl k' p' id' Hc Hm' Hm.
-  pose proof (lookup_unbeaten_on_domain _ _ _ _ _ _ _ Hok Hreg Hb Hl _ Hc) as H.
+  intros Hok Hreg Hl k' p' id' Hc Hm' Hm.
+  pose proof (lookup_unbeaten_on_domain _ _ _ _ _ _ _ Hok Hreg Hl _ Hc) as H.
   unfold beats in H. apply orb_false_iff in H as [H _].
   pose proof (table_ok_wf t Hok) as Hwf.
   destruct Hok as (Hplain & Hnd & Hs). rewrite Forall_forall in Hplain.
@@ -638,13 +635,39 @@ Qed.
 Local Open Scope string_scope.
 Theorem on_domain_nonvacuous :
   let t := new_table ex_defs in
-  table_ok t /\ region t false false MPrefix (bs "B.A.FOO.COM") (bs "/x/y") = None
-  /\ host_bytes_ok (bs "B.A.FOO.COM") false.
+  let h := bs "B.A.FOO.COM" in
+  table_ok t
+  /\ region t false false MPrefix h (bs "/x/y") = None
+  (* glob matching disabled, iprefix, glob matcher, TLS with the default port *)
+  /\ region t true false MPrefix (bs "*.A.foo.com") (bs "/x/y") = None
+  /\ lookup t (bs "*.A.foo.com") false (bs "/x/y") MPrefix true = Some (bs "*.a.foo.com", bs "/x", 4)
+  /\ region t false false MIPrefix h (bs "/X/y") = None
+  /\ lookup t h false (bs "/X/y") MIPrefix false = Some (bs "*.a.foo.com", bs "/x", 4)
+  /\ region t false true MGlob (bs "b.a.foo.com:443") (bs "/x") = None
+  /\ lookup t (bs "b.a.foo.com:443") true (bs "/x") MGlob false = Some (bs "*.a.foo.com", bs "/x", 4).
 Proof.
   destruct lookup_nonvacuous as (_ & Hnd & Hs & Hr & _).
-  split; [|split; [exact Hr|]].
-  - split; [|split; [exact Hnd | exact Hs]].
-    vm_compute keys. repeat constructor.
-  - unfold host_bytes_ok. vm_compute normalize_host. intros c Hc. cbn [In] in Hc.
-    repeat (destruct Hc as [<- | Hc]; [reflexivity|]). destruct Hc.
+  split; [|vm_compute; repeat split; reflexivity].
+  split; [|split; [exact Hnd | exact Hs]].
+  vm_compute keys. repeat constructor.
+Qed.
+
+(* ------------------------------------------------------------------ *)
+(** * NewTable establishes the hypotheses of sound / complete for ALL definitions (ports,
+      any syntax): keys lower-case and pairwise distinct *)
+Definition tbl_inv0 (t : table) : Prop := NoDup (keys t) /\ Forall (fun k => lower k = k) (keys t).
+
+Lemma add_defs_inv0 defs : forall t, tbl_inv0 t ->
+  tbl_inv0 (fold_left (fun t d => let '(h, p, id) := d in add_route t (lower h) p id) defs t).
+Proof.
+  induction defs as [|[[h p] id] defs IH]; intros t Ht; cbn [fold_left]; [exact Ht|].
+  apply IH. destruct Ht as [Hnd Hl]. split; [now apply add_route_nodup|].
+  rewrite Forall_forall in Hl |- *. intros x Hx.
+  apply add_route_keys_in in Hx as [-> | Hx]; [apply lower_idem | now apply Hl].
+Qed.
+
+Theorem new_table_wf defs : wf_keys (new_table defs) /\ NoDup (keys (new_table defs)).
+Proof.
+  unfold wf_keys. rewrite new_table_keys.
+  destruct (add_defs_inv0 defs []) as [Hnd Hl]; [split; constructor|]. now split.
 Qed.
